@@ -26,6 +26,10 @@ def run(tier, seed):
     rows, g = gen.sim(SPEC, "ReplStore", "ReplStoreSim.cfg", {}, num=150 if quick else 3000, depth=120, seed=seed, timeout=3000)
     stimuli += to_stimuli(rows, 10)
     gens.append(g)
+    # directed histories: the limit lowered from 20 to 10 below the number of forms held, 0-3 more forms, restart, 0-2 forms, restart
+    rows, g = gen.bfs(SPEC, "ReplStore", "ReplStoreScript.cfg", {}, timeout=3000)
+    stimuli += to_stimuli(rows, 20)
+    gens.append(g)
     # probes for the recorded findings about forms the history file cannot represent
     findings = {f["feature"]: f for f in common.load_findings(PROP) if f.get("status") == "open"}
     probes = {"tab-inside-form": 101, "blanks-around-form": 102}
@@ -35,12 +39,12 @@ def run(tier, seed):
         probe_ids[len(stimuli)] = feat
     # the stash file: the same model without a limit (no compaction): add / clear / restart / death at every step
     n_hist = len(stimuli)
-    rows, g = gen.bfs(SPEC, "ReplStore", "ReplStore.cfg", {"Limit": 1000, "MaxOps": 7 if quick else 9}, timeout=3000)
+    rows, g = gen.bfs(SPEC, "ReplStore", "ReplStore.cfg", {"Limit": 1000, "Limits": "{1000}", "MaxOps": 7 if quick else 9}, timeout=3000)
     stimuli += [dict(s, kind="stash") for s in to_stimuli(rows, 1000)]
     gens.append(g)
     # the graph merges the states after a torn and after a clean death (the model removes the fragment): what happens
     # *after* a torn write is reached by random walks
-    rows, g = gen.sim(SPEC, "ReplStore", "ReplStoreSim.cfg", {"Limit": 1000, "MaxOps": 14, "EmitFrom": 6}, num=300 if quick else 4000, depth=60, seed=seed + 7, timeout=3000)
+    rows, g = gen.sim(SPEC, "ReplStore", "ReplStoreSim.cfg", {"Limit": 1000, "Limits": "{1000}", "MaxOps": 14, "EmitFrom": 6}, num=300 if quick else 4000, depth=60, seed=seed + 7, timeout=3000)
     stimuli += [dict(s, kind="stash") for s in to_stimuli(rows, 1000)]
     gens.append(g)
     for i, s in enumerate(stimuli):
@@ -99,10 +103,11 @@ def run(tier, seed):
     rep.cov.update({"states": sum(g.get("distinct", 0) for g in gens), "transitions": sum(g["generated"] for g in gens),
                     "traces_validated_against_impl": len(stimuli) + len(cfg_stim), "evaluations": res["checked"] + nsess,
                     "distinct_nontrivial": len({json.dumps(s["ops"]) for s in stimuli}), "exhaustive": True,
-                    "rule": "one operation history per transition of ReplStore.tla (History.Add incl. repeated forms, Clear of every range, restart, "
+                    "rule": "one operation history per transition of ReplStore.tla (History.Add incl. repeated forms, Clear of every range, SetLimit, restart, "
                             "process death before every file-system step - open, each write, rename - and in the middle of a write; limits 2 and 3, "
                             f"<= {8 if quick else 11} operations; VIEW = memory + files + program counter) on which TLC also checks the four invariants; plus the "
-                            "final states of random walks with limit 10 (compaction with slack). Each history is replayed into a real repl.History "
+                            "final states of random walks with limits 10 / 12 / 20 changed on the way (compaction with slack), and directed histories that lower the limit from 20 to 10 "
+                            "below the number of forms held and restart after 0-3 more forms. Each history is replayed into a real repl.History "
                             "with the crash hooks of the verif build; the loaded history after every restart / crash is judged by the acceptor "
                             "ReplStoreTrace (restart: equal to the reference; crash: prefix or suffix of the reference before or after the operation). "
                             "Settings: one history of setq / restart per transition of ReplSettings.tla (3 tracked variables, 2 values), every session "
